@@ -1487,7 +1487,7 @@ func suiteEngineSummaries(c *Ctx) {
 		}
 		name := runNames[(i+seedShift/len(runs))%len(runNames)]
 		if i%3 == 2 {
-			rc.runs, rc.pick = 3, g.r.Intn(3)
+			rc.runs, rc.pick = 3, 1+g.r.Intn(2) // a LATER run of the scenario (the first one behaves like a single run, covered above)
 			if rc.iters > 400 {
 				rc.iters = 400
 			}
